@@ -274,3 +274,37 @@ Section DictLemmas2.
   Lemma NoDup_dict_keys_of_list (l : list (K * V)) : NoDup (dict_keys (dict_of_list l)).
   Proof. unfold dict_of_list. apply NoDup_dict_keys_update. constructor. Qed.
 End DictLemmas2.
+
+(* ------------------------------------------------------------------ *)
+(* dict_pop / dict_has lemmas *)
+Section DictPopLemmas.
+  Context {K V : Type} `{EqDec K}.
+  Implicit Types d : pydict K V.
+
+  Lemma dict_has_true d k : dict_has d k = true <-> In k (dict_keys d).
+  Proof. unfold dict_has, dict_keys. apply mem_In. Qed.
+  Lemma dict_has_false d k : dict_has d k = false <-> ~ In k (dict_keys d).
+  Proof. unfold dict_has, dict_keys. apply mem_false. Qed.
+
+  Lemma dict_get_pop d k k2 : dict_get (dict_pop d k) k2 = if eq_dec k2 k then None else dict_get d k2.
+  Proof. unfold dict_pop. induction d as [|[a b] t IH]; simpl.
+    - destruct (eq_dec k2 k); reflexivity.
+    - unfold eqb at 1. destruct (eq_dec k a) as [<-|n]; simpl.
+      + rewrite IH. destruct (eq_dec k2 k); reflexivity.
+      + rewrite IH. destruct (eq_dec k2 a) as [->|n2]; [|reflexivity].
+        destruct (eq_dec a k); [congruence|reflexivity]. Qed.
+
+  Lemma dict_keys_pop d k : dict_keys (dict_pop d k) = remove_elem k (dict_keys d).
+  Proof. unfold dict_keys, dict_pop, remove_elem. induction d as [|[a b] t IH]; simpl; [reflexivity|].
+    destruct (negb (eqb k a)); simpl; rewrite IH; reflexivity. Qed.
+
+  Lemma In_dict_keys_pop d k k2 : In k2 (dict_keys (dict_pop d k)) <-> In k2 (dict_keys d) /\ k2 <> k.
+  Proof. rewrite dict_keys_pop. apply In_remove_elem. Qed.
+
+  Lemma NoDup_dict_keys_pop d k : NoDup (dict_keys d) -> NoDup (dict_keys (dict_pop d k)).
+  Proof. rewrite dict_keys_pop. apply NoDup_filter. Qed.
+
+  Lemma dict_pop_absent d k : ~ In k (dict_keys d) -> dict_pop d k = d.
+  Proof. unfold dict_pop, dict_keys. induction d as [|[a b] t IH]; simpl; intros N; [reflexivity|].
+    unfold eqb at 1. destruct (eq_dec k a) as [->|n]; [tauto|]. simpl. rewrite IH; [reflexivity|tauto]. Qed.
+End DictPopLemmas.
